@@ -88,7 +88,7 @@ func reachingDefs(f *cfgx.Func, v *types.Var, at *ast.CallExpr, decide func(ast.
 		canT, canF := true, true
 		if len(blk.Succs) == 2 && decide != nil && len(blk.Nodes) > 0 {
 			if cond, ok := blk.Nodes[len(blk.Nodes)-1].(ast.Expr); ok {
-				canT, canF = decide(cond)
+				canT, canF = decide(f.Cond(cond))
 			}
 		}
 		for si, s := range blk.Succs {
